@@ -2,6 +2,8 @@
 
 package frugal
 
+import "unsafe"
+
 // verifSubjectID returns the number the verification harness encodes as the
 // trailing decimal digits of a NATS reply subject (0 when there are none). It
 // only feeds the ids passed to verifYield by the NATS server's yield points.
@@ -13,3 +15,7 @@ func verifSubjectID(subject string) uint64 {
 	}
 	return id
 }
+
+// verifServerID identifies an fNatsServer to the verification harness (its
+// address, which the harness obtains from the FServer it built).
+func verifServerID(f *fNatsServer) uint64 { return uint64(uintptr(unsafe.Pointer(f))) }
